@@ -199,6 +199,20 @@ theorem step_run_m2 {s s' : State} {t : Nat} {l : Label} {cs : List Nat} {raised
   topen
   trest
 
+theorem step_run_mRS_nil {s s' : State} {t : Nat} {l : Label} {cs raised res : List Nat} (h : Inv s) (hph : s.phase t = .running) (hc : s.call t = .mRS cs raised res [])
+    (hs : step s t = some (s', l)) : Inv s' := by
+  unfold step at hs; rw [hph] at hs; simp only [hc] at hs
+  cases hs
+  topen
+  trest
+
+theorem step_run_mRJ_nil {s s' : State} {t : Nat} {l : Label} {cs raised res raised2 : List Nat} (h : Inv s) (hph : s.phase t = .running) (hc : s.call t = .mRJ cs raised res [] raised2)
+    (hs : step s t = some (s', l)) : Inv s' := by
+  unfold step at hs; rw [hph] at hs; simp only [hc] at hs
+  cases hs
+  topen
+  trest
+
 theorem step_peek {s s' : State} {t : Nat} {l : Label} {o : Outcome} (h : Inv s) (hph : s.phase t = .peek o)
     (hs : step s t = some (s', l)) : Inv s' := by
   unfold step at hs; rw [hph] at hs; simp only at hs
